@@ -12,6 +12,12 @@ NOT_APPLICABLE = {
 }
 
 CLAIMS = {
+    "C01": {
+        "text": "Decides protocol clauses of the Polyhedron lazy representation, not the double-description arithmetic: (R1.1) flag typestate over every CFG path — after a row is inserted into a description no path leaves that description's `minimized` claim standing, and after an insertion into the constraint system no path leaves `generators up to date` claimed (non-public writers hand the obligation to their callers); (R1.3) every insert_pending is followed on every path by the matching set_*_pending (correlated boolean locals such as `adding_pending` tracked); (R13.4) const members strip constness only at the 53 confirmed lazy-update sites. Necessary for 'the two descriptions denote the same set whatever the history' and 'observing never changes the set'. Write kinds other than row insertion (affine maps, dimension changes, sorting) are counted but not judged; the value preservation of the lazy-update members, conversion, minimization and every query's arithmetic are NOT decided (a seeded numeric shortcut in is_universe() is not detected, see DESIGN).",
+        "design_ref": "DESIGN.md §3 C01",
+        "note": "armed write kinds were inferred by unanimous majority over the tree and then frozen; strongly_minimize_* are tabled as establishing the claim they touch",
+        "technique": "flag typestate and must-follow rules over clang CFG x boolean-local environment with callee summaries; who-may-const_cast allowlist",
+    },
     "C05": {
         "text": "Decides two protocol clauses of the Grid lazy representation, not the lattice arithmetic: (R5.1) flag typestate over every CFG path — after a value-changing edit of a description (affine image/preimage, insertion, permutation, concatenation, removal of dimensions: the kinds for which every site of the confirmed tree does so) no path leaves that description's `minimized` claim standing; (R5.3/R5.4) for a class whose observers hand out a description member as it is when the object is marked empty (Grid), the copy constructor distinguishes the same source states as operator= (notably marked_empty, which installs the canonical empty representation). Necessary for 'the congruence and generator descriptions denote the same set whatever the history' and for copies to be the same value. The `up to date` pairing of the two descriptions, dimension changes that maintain the triangular form through dim_kinds, Hermite reduction, conversion, relation_with, frequency and difference are NOT decided.",
         "design_ref": "DESIGN.md §3 C05",
